@@ -74,6 +74,25 @@ def make_subclass(rnd, base, name, module):
     return s
 
 
+def make_enum_decl(rnd, prog, enum_name, use_inst, module=None):
+    """Declare the program's states with ``States.from_enum`` over an Enum whose members are the state
+    ids (the Enum is defined in the program's own module, or imported from ``module``)."""
+    members = [[s["id"], n + 1] for n, s in enumerate(prog["states"])]
+    if module is None:
+        prog["enums"] = [{"name": enum_name, "members": members}]
+    else:
+        prog["enum_import"] = [module, enum_name]
+    prog["from_enum"] = {"enum": enum_name, "use_enum_instance": use_inst}
+    for n, s in enumerate(prog["states"]):
+        s["value"] = {"$en": [enum_name, s["id"]]} if use_inst else n + 1
+        s.pop("name", None)
+        # from_enum builds the State objects itself: no enter=/exit= arguments
+        for g in ("enter", "exit"):
+            if s.get(g):
+                keep = [c for c in s[g] if prog["cbs"].get(f"machine.{c}", {}).get("style") == "decorator"]
+                s[g] = keep
+
+
 def make_collision(rnd, victim, k, name):
     """An unrelated class one of whose STATE IDS equals the name of a callback / attribute the victim
     class defines on the machine itself (names are only unique within a class)."""
@@ -128,9 +147,9 @@ def solo(sc, tag):
     inst_prog = next(o["prog"] for o in s["ops"] if o["op"] == "new" and o["inst"] == tag)
     needed = {inst_prog}
     p = s["programs"][inst_prog]
-    if p.get("base_module"):
+    if p.get("base_module") or p.get("enum_import"):
         for i, q in enumerate(s["programs"]):
-            if q["module"] == p["base_module"]:
+            if q["module"] in (p.get("base_module"), (p.get("enum_import") or [None])[0]):
                 needed.add(i)
     for i, q in enumerate(s["programs"]):
         if i not in needed:
@@ -260,10 +279,24 @@ class C16(Campaign):
                                                      "async": True}
         programs = [base]
         kinds = []
+        enum_mode = async_role is None and rnd.random() < 0.12
+        if enum_mode:
+            # the class takes its states from an Enum (States.from_enum); a neighbour class is declared
+            # from the SAME Enum: each class must get State objects of its own
+            enum_use_inst = rnd.random() < 0.5
+            make_enum_decl(rnd, base, "P0_E", enum_use_inst)
         for i in range(rnd.randint(1, 3)):
             kind = rnd.choice(["unrelated", "lookalike", "lookalike", "lookalike", "subclass", "same_class",
                                "same_class", "collision", "collision"])
-            if kind == "collision":
+            if enum_mode:
+                kind = rnd.choice(["enum_twin", "enum_twin", "same_class", "unrelated"])
+            if kind == "enum_twin":
+                n_ = len(base["states"])
+                p = gen.gen_program(rnd, dict(k, states=(n_, n_)), name=f"E{i}")
+                make_enum_decl(rnd, p, "P0_E", enum_use_inst if rnd.random() < 0.8 else not enum_use_inst,
+                               module=base["module"])
+                programs.append(p)
+            elif kind == "collision":
                 programs.append(make_collision(rnd, base, k, f"X{i}"))
                 # ... and another instance of the victim class built at some later point
                 programs.append(None)
